@@ -112,8 +112,18 @@ def eligible(fi):
                 and dotted(d) is None:
             return False
     gen = is_simple_generator(n)
+    own_names = {x.arg for x in ast.walk(a) if isinstance(x, ast.arg)} | _stored_names(n.body) | _comp_names(n.body)
     for x in _own_nodes(n):
-        if isinstance(x, (ast.YieldFrom, ast.Nonlocal, ast.ClassDef, ast.Lambda) + _FUNC):
+        if isinstance(x, ast.Lambda):
+            # a closed lambda (`key=lambda pair: pair[0]`): it names only its own parameters and module-level things, none of them
+            # spelled like a parameter or local of the helper - it means the same wherever it is copied to
+            la = {y.arg for y in ast.walk(x.args) if isinstance(y, ast.arg)}
+            inner = {y.id for y in ast.walk(x.body) if isinstance(y, ast.Name)}
+            if la & own_names or (inner - la) & own_names or x.args.defaults or x.args.kw_defaults or \
+                    any(isinstance(y, (ast.Lambda, ast.NamedExpr, ast.Yield, ast.Await)) for y in ast.walk(x.body)):
+                return False
+            continue
+        if isinstance(x, (ast.YieldFrom, ast.Nonlocal, ast.ClassDef) + _FUNC):
             return False
         if isinstance(x, ast.Global) and _leading_globals(n) is None:
             return False
@@ -545,7 +555,26 @@ class Expander:
                 if isinstance(x, ast.Global):
                     cg |= set(x.names)
             if not g <= cg:
-                return None
+                # a caller that only reads those names (no local of that name: no store, no parameter, no comprehension / for target)
+                # already means the module-level ones; declaring them global there changes nothing and makes the expansion possible
+                missing = g - cg
+                bound = {a.arg for a in ast.walk(caller.node.args) if isinstance(a, ast.arg)}
+                for x in _own_nodes(caller.node):
+                    if isinstance(x, ast.Name) and isinstance(x.ctx, (ast.Store, ast.Del)):
+                        bound.add(x.id)
+                    elif isinstance(x, (ast.FunctionDef, ast.AsyncFunctionDef, ast.ClassDef)) and x is not caller.node:
+                        bound.add(x.name)
+                    elif isinstance(x, ast.ExceptHandler) and x.name:
+                        bound.add(x.name)
+                    elif isinstance(x, (ast.Import, ast.ImportFrom)):
+                        bound |= {(a.asname or a.name).split(".")[0] for a in x.names}
+                if missing & bound or not isinstance(caller.node, (ast.FunctionDef, ast.AsyncFunctionDef)):
+                    return None
+                body = caller.node.body
+                at = 1 if body and isinstance(body[0], ast.Expr) and isinstance(body[0].value, ast.Constant) and isinstance(body[0].value.value, str) else 0
+                decl = ast.Global(names=sorted(missing))
+                ast.copy_location(decl, body[at] if at < len(body) else caller.node)
+                body.insert(at, decl)
         if r.module is not caller.module and self._foreign_names(r, caller) is None:
             return None
         if r.is_async != awaited:
@@ -568,7 +597,7 @@ class Expander:
         if key in self._foreign_memo:
             return self._foreign_memo[key]
         src, dst = r.module, caller.module
-        local = _stored_names(r.node.body) | {a.arg for a in ast.walk(r.node.args) if isinstance(a, ast.arg)} | _comp_names(r.node.body)
+        local = _stored_names(r.node.body) | {a.arg for a in ast.walk(r.node) if isinstance(a, ast.arg)} | _comp_names(r.node.body)   # (lambda parameters too)
         need = {}
         respell = {}
         ok = True
@@ -912,7 +941,7 @@ class Expander:
                             ast.fix_missing_locations(e)
                             return self.visit(e)
                     # hoist into a temporary when nothing observable is evaluated before the call
-                    if self.guarded == 0 and first_effect[0] is whole and isinstance(st, (ast.If, ast.Return, ast.Assign, ast.AnnAssign, ast.Expr, ast.AugAssign, ast.Raise, ast.Assert)) \
+                    if self.guarded == 0 and exp._first_effect_within(expr, whole) and isinstance(st, (ast.If, ast.Return, ast.Assign, ast.AnnAssign, ast.Expr, ast.AugAssign, ast.Raise, ast.Assert)) \
                             and not field.startswith("targets") \
                             and not (isinstance(st, ast.Assign) and len(st.targets) == 1 and isinstance(st.targets[0], ast.Name) and st.value is whole):
                         # (`t = f(..)` itself is the hoisted form: if it could not be expanded as a statement, hoisting it again would not end)
@@ -928,6 +957,17 @@ class Expander:
                 return None
 
         return R().visit(expr)
+
+    def _first_effect_within(self, expr, whole):
+        """Everything observable that is evaluated before the call `whole` completes belongs to `whole` itself (its own arguments)."""
+        inside = {id(x) for x in ast.walk(whole)}
+        for x in self._eval_order(expr):
+            if isinstance(x, (ast.Call, ast.Await)):
+                if x is whole:
+                    return True
+                if id(x) not in inside:
+                    return False
+        return False
 
     @staticmethod
     def _eval_order(expr):
@@ -2458,6 +2498,70 @@ def _loops_to_comprehensions(tree):
     return n
 
 
+def lower_takewhile(repo, rebuild):
+    """`return list(itertools.takewhile(P, (E for v in IT)))` (also `x = list(...)`) with a named predicate P and an effect-free E
+    ->  acc = []; for v in IT: if not P(E): break; acc.append(E); return acc   - the loop the comprehension stands for."""
+    changed = set()
+    for rel, m in repo.modules.items():
+        if not rel.startswith(("schemes/", "toolkit/", "frontend/", "data_persistence/")):
+            continue
+        n = 0
+        for f in [x for x in ast.walk(m.tree) if isinstance(x, _FUNC)]:
+            used = {x.id for x in ast.walk(f) if isinstance(x, ast.Name)}
+            for holder in list(ast.walk(f)):
+                for field in ("body", "orelse", "finalbody"):
+                    blk = getattr(holder, field, None)
+                    if not (isinstance(blk, list) and blk and isinstance(blk[0], ast.stmt)):
+                        continue
+                    i = 0
+                    while i < len(blk):
+                        st = blk[i]
+                        i += 1
+                        val = st.value if isinstance(st, (ast.Return, ast.Assign)) else None
+                        if isinstance(st, ast.Assign) and not (len(st.targets) == 1 and isinstance(st.targets[0], ast.Name)):
+                            continue
+                        if not (isinstance(val, ast.Call) and isinstance(val.func, ast.Name) and val.func.id == "list" and len(val.args) == 1 and not val.keywords):
+                            continue
+                        tw = val.args[0]
+                        if not (isinstance(tw, ast.Call) and (dotted(tw.func) or "").split(".")[-1] == "takewhile" and len(tw.args) == 2 and not tw.keywords):
+                            continue
+                        if (dotted(tw.func) or "") not in ("itertools.takewhile", "takewhile") or (dotted(tw.func) == "takewhile" and m.imports.get("takewhile") != "itertools.takewhile"):
+                            continue
+                        pred, gen = tw.args
+                        if not (isinstance(pred, ast.Name) and isinstance(gen, ast.GeneratorExp) and len(gen.generators) == 1 and not gen.generators[0].ifs
+                                and not gen.generators[0].is_async and _effect_free(gen.elt)):
+                            continue
+                        g0 = gen.generators[0]
+                        tnames = {x.id for x in ast.walk(g0.target) if isinstance(x, ast.Name)}
+                        if tnames & (used - {x.id for x in ast.walk(gen) if isinstance(x, ast.Name)}):
+                            continue   # the comprehension variable would clobber a local of the function
+                        acc = st.targets[0].id if isinstance(st, ast.Assign) else "taken__tw%d" % (n + 1)
+                        if isinstance(st, ast.Assign) and any(isinstance(x, ast.Name) and x.id == acc for x in ast.walk(val)):
+                            continue
+                        tgt = clone(g0.target)
+                        for x in ast.walk(tgt):
+                            if isinstance(x, ast.Name):
+                                x.ctx = ast.Store()
+                        init = ast.Assign(targets=[ast.Name(id=acc, ctx=ast.Store())], value=ast.List(elts=[], ctx=ast.Load()))
+                        stop = ast.If(test=ast.UnaryOp(op=ast.Not(), operand=ast.Call(func=clone(pred), args=[clone(gen.elt)], keywords=[])), body=[ast.Break()], orelse=[])
+                        app = ast.Expr(value=ast.Call(func=ast.Attribute(value=ast.Name(id=acc, ctx=ast.Load()), attr="append", ctx=ast.Load()), args=[clone(gen.elt)], keywords=[]))
+                        loop = ast.For(target=tgt, iter=g0.iter, body=[stop, app], orelse=[], type_comment=None)
+                        new = [init, loop]
+                        if isinstance(st, ast.Return):
+                            new.append(ast.Return(value=ast.Name(id=acc, ctx=ast.Load())))
+                        for z in new:
+                            ast.copy_location(z, st)
+                            ast.fix_missing_locations(z)
+                        blk[i - 1:i] = new
+                        i += len(new) - 1
+                        n += 1
+        if n:
+            changed.add(rel)
+    if changed:
+        rebuild(repo, changed)
+    return len(changed)
+
+
 def fold_literals(repo, rebuild):
     changed = set()
     for rel, m in repo.modules.items():
@@ -2921,6 +3025,18 @@ class _FoldNoneTests(ast.NodeTransformer):
 
     def visit_If(self, node):
         self.generic_visit(node)
+        t = node.test
+        neg = False
+        while isinstance(t, ast.UnaryOp) and isinstance(t.op, ast.Not):
+            t, neg = t.operand, not neg
+        if isinstance(t, ast.Constant) and (t.value is True or t.value is False):
+            # a selected truth value put where it is tested (the branches returned True / False to their caller's `if`)
+            kept = (node.body if (t.value is not neg) else node.orelse) or [ast.copy_location(ast.Pass(), node)]
+            for k_, x in enumerate(kept):
+                if isinstance(x, (ast.Return, ast.Raise, ast.Continue, ast.Break)):
+                    kept = kept[:k_ + 1]
+                    break
+            return kept
         t = node.test
         if isinstance(t, ast.Compare) and len(t.ops) == 1 and isinstance(t.ops[0], (ast.Is, ast.IsNot)) and isinstance(t.comparators[0], ast.Constant) and \
                 t.comparators[0].value is None:
@@ -3444,6 +3560,13 @@ def normalize(repo, rebuild):
         unknown = {}
         for rel, m in repo.modules.items():
             if rel not in known["globals"]:
+                # a module the reference does not have: its module-level functions are unlisted helpers like any other
+                # (classes of such a module are whole new classes, see below)
+                if not rel.startswith(("schemes/", "toolkit/", "frontend/", "data_persistence/")):
+                    continue
+                for fi in m.functions.values():
+                    if eligible(fi):
+                        unknown[fi.key] = fi
                 continue
             for fi in m.all_functions():
                 if fi.key not in kf and eligible(fi):
@@ -3518,6 +3641,8 @@ def normalize(repo, rebuild):
     coalesce_inlined_copies(repo, rebuild)
     inline_attr_aliases(repo, rebuild)
     repo.temps_inlined = inline_adjacent_temps(repo, rebuild)
+    if lower_takewhile(repo, rebuild):
+        notes.append("list(itertools.takewhile(P, (E for v in IT))) written as the loop it stands for")
     if fold_literals(repo, rebuild):
         lower_tuples_and_records(repo, rebuild)
         repo.temps_inlined += inline_adjacent_temps(repo, rebuild)
